@@ -20,9 +20,9 @@ from core import InfraError
 
 META = dict(
     level="exploration",
-    technique="small-scope exhaustive enumeration of matrices over tiny entry alphabets (all instantiations, layers and overloads), factorisation oracle in long double",
-    text="Every matrix over the stated entry alphabets (2x2 general/symmetric/hermitian over 9 values spanning 12 orders of magnitude, 3x3 symmetric/hermitian/general, 4x4 symmetric over {-1,0,1}, the neutralino sparsity pattern, Yukawa-like hierarchical 3x3, constructed exactly degenerate Q D Q^T and U D V^T) times global scalings 1, 1e6, 1e-6 is decomposed by every layer and overload of gm2_linalg.hpp for the instantiations used by the models (and the neighbouring real/complex ones); reconstruction in the documented convention, unitarity, non-negativity, ordering, agreement of overloads and the error bounds are checked on each. Exhaustive within the alphabets; says nothing about matrices with other entries.",
-    note="trusted: long double arithmetic of the harness, the header-only templates are compiled into the harness from /repo/src with g++ -O2; tolerances fixed in DESIGN 3/C12 (1e-12 Jacobi/QR paths, 1e-7/1e-8 closed-form 3x3)",
+    technique="small-scope exhaustive enumeration of matrices over tiny entry alphabets (all instantiations, layers, overloads and call orders), factorisation oracle in long double, bitwise purity against re-ordered calls and a pristine process",
+    text="Every matrix over the stated entry alphabets (2x2 general/symmetric/hermitian over 9 values spanning 12 orders of magnitude, 3x3 symmetric/hermitian/general, 4x4 symmetric over {-1,0,1}, the neutralino sparsity pattern, Yukawa-like hierarchical 3x3, constructed exactly degenerate Q D Q^T and U D V^T) times global scalings 1, 1e6, 1e-6 is decomposed by every layer and overload of gm2_linalg.hpp for the instantiations used by the models (and the neighbouring real/complex ones); reconstruction in the documented convention, unitarity, non-negativity, ordering, agreement of overloads and the error bounds are checked on each. Purity: every routine is called again on each matrix in six other call orders (values-only before full, after a different matrix, repeated, error-bound overloads interleaved) and every result must be bitwise identical to the canonical one; for the four instantiations the models use the full and values-only results are also compared bitwise with the same call made as the first library call of a pristine process. Exhaustive within the alphabets; says nothing about matrices with other entries.",
+    note="trusted: long double arithmetic of the harness, the header-only templates are compiled into the harness from /repo/src (build variant named in HARNESSES); fork()ed zygote for the pristine-process reference; tolerances fixed in DESIGN 3/C12 (1e-12 Jacobi/QR paths, 1e-7/1e-8 closed-form 3x3)",
     design_ref="3/C12")
 
 HARNESSES = [(("la", "clang", ["la.cpp"]), {"link_lib": False})]
@@ -180,6 +180,7 @@ def run(ctx):
     ctx.assumptions += [
         "tolerances: reconstruction 1e-12*||m||_F and unitarity 1e-12 (Frobenius) on Jacobi-SVD / QR paths, 1e-7 / 1e-8 for the closed-form real 3x3 eigen-solver (DESIGN 3/C12)",
         "complex symmetric (Takagi via SVD) input is not instantiated by the models; it is enumerated too and its failures are keyed '<routine>/c/<size>'",
+        "purity: A = reverse(B) is the 'different matrix'; sequences full(A),vals(B),full(B) | vals(A),full(B) | full(B),vals(B),vals(B) | full(A),full(B) | vals_e(A),full_errbds(B) | full_errbds(A),vals_e(B),full_e(B) after the canonical full(B),vals(B),vals_e(B),full_e(B),full_errbds(B); complex-symmetric input runs only the first sequence; fs_svd_rc values-only calls go to the complex instantiation its full overload casts to",
         "error-bound index check: vector bound_i == value bound / max(gap_i, eps*max|value|) as in the LAPACK users' guide sections the header cites"]
     return ctx.finish(
         "every matrix of each set (complete product of the entry alphabet, or every (basis, sign pattern, spectrum) of the "
